@@ -1247,13 +1247,14 @@ package ion
 //@ modifies nothing
 
 //@ func computeTimezoneKind
-//@ requires 0 <= idx && idx < len(val)
+//@ requires 0 <= idx && idx <= len(val)
 //@ modifies nothing
-//@ ensures[C07,C15] err == nil && (val[idx] == '+' || val[idx] == '-') ==> specOffsetErr(val, idx) == nil && specOffsetHour(val, idx) < 24 && specOffsetMinute(val, idx) < 60
-//@ ensures[C15] err == nil && result == TimezoneLocal ==> (val[idx] == '+' || val[idx] == '-') && (specOffsetHour(val, idx) != 0 || specOffsetMinute(val, idx) != 0)
-//@ ensures[C15] err == nil && val[idx] == '-' && specOffsetHour(val, idx) == 0 && specOffsetMinute(val, idx) == 0 ==> result == TimezoneUnspecified
-//@ ensures[C15] err == nil && (val[idx] == 'z' || val[idx] == 'Z') ==> result == TimezoneUTC
-//@ ensures[C07,C15] val[idx] != 'z' && val[idx] != 'Z' && val[idx] != '+' && val[idx] != '-' ==> err != nil
+//@ ensures[C06,C07,C15] idx == len(val) ==> err != nil
+//@ ensures[C07,C15] idx < len(val) && err == nil && (val[idx] == '+' || val[idx] == '-') ==> specOffsetErr(val, idx) == nil && specOffsetHour(val, idx) < 24 && specOffsetMinute(val, idx) < 60
+//@ ensures[C15] idx < len(val) && err == nil && result == TimezoneLocal ==> (val[idx] == '+' || val[idx] == '-') && (specOffsetHour(val, idx) != 0 || specOffsetMinute(val, idx) != 0)
+//@ ensures[C15] idx < len(val) && err == nil && val[idx] == '-' && specOffsetHour(val, idx) == 0 && specOffsetMinute(val, idx) == 0 ==> result == TimezoneUnspecified
+//@ ensures[C15] idx < len(val) && err == nil && (val[idx] == 'z' || val[idx] == 'Z') ==> result == TimezoneUTC
+//@ ensures[C07,C15] idx < len(val) && val[idx] != 'z' && val[idx] != 'Z' && val[idx] != '+' && val[idx] != '-' ==> err != nil
 //@ safe[C06]
 
 // ---------------------------------------------------------------------------
@@ -1979,3 +1980,28 @@ package ion
 //@ ensures[C07] old(bsAvail(b)) > 0 && old(bsByte(b, 0))&0x0F != 15 && (old(bsByte(b, 0))>>4 == 14 || old(bsByte(b, 0))>>4 == 0) ==> err != nil
 //@ ensures[C07,C19] old(bsAvail(b)) == 0 ==> err != nil
 //@ safe[C06]
+
+// ---------------------------------------------------------------------------
+// timestamp.go: ParseTimestamp never indexes past the end of its text (C06, C15): every
+// position it looks at was checked against the length first, a time of day without an
+// offset is an error.
+//@ func tryCreateDateTimestamp
+//@ trusted thin: called by contract
+//@ modifies nothing
+//@ func NewTimestampFromStr
+//@ trusted thin: called by contract (time.Parse based)
+//@ modifies nothing
+//@ func roundFractionalSeconds
+//@ trusted thin: called by contract (time.Parse based)
+//@ requires 0 <= idx && idx <= len(val)
+//@ modifies nothing
+//@ func invalidTimestamp
+//@ modifies nothing
+//@ ensures[C07,C15] err != nil
+
+//@ func ParseTimestamp
+//@ split returns
+//@ invariant loop0 [idx int] 20 <= idx && idx <= len(dateStr)
+//@ modifies nothing
+//@ ensures[C07,C15] len(dateStr) < 5 ==> err != nil
+//@ safe[C06,C15]
